@@ -117,7 +117,7 @@ func (c *Chain) EthTxWith(signer *Account, nonce uint64, to *common.Address, val
 // QueryProof returns the ICS-23 proof bytes for key in the xibc store at IAVL version `version`,
 // and the light-client height (version+1) whose app hash it verifies against.
 func (c *Chain) QueryProof(store string, key []byte, version int64) ([]byte, clienttypes.Height, []byte, error) {
-	res := c.App.Query(abci.RequestQuery{
+	res := c.appAt(version).App.Query(abci.RequestQuery{
 		Path:   fmt.Sprintf("store/%s/key", store),
 		Height: version,
 		Data:   key,
@@ -139,7 +139,7 @@ func (c *Chain) QueryProof(store string, key []byte, version int64) ([]byte, cli
 
 // StoreGetAt reads a raw key of a store at a committed version (ground truth for oracles).
 func (c *Chain) StoreGetAt(store string, key []byte, version int64) []byte {
-	res := c.App.Query(abci.RequestQuery{Path: fmt.Sprintf("store/%s/key", store), Height: version, Data: key})
+	res := c.appAt(version).App.Query(abci.RequestQuery{Path: fmt.Sprintf("store/%s/key", store), Height: version, Data: key})
 	return res.Value
 }
 
